@@ -180,7 +180,7 @@ static void one_case(long idx, void *arg)
     for (int i = 0; i < c.n; i++) { cand_listen_ip(&c.c[i], lips[i], sizeof lips[i]); ips[i] = lips[i]; }
     int port = vnet_pick_port(ips, c.n);
     if (port < 0) { vobs("setup_failed", 1); vdns_enable(false); vcase_done(false); return; }
-    struct xcm_socket *srv[MAXL] = { 0 }; struct xcm_socket *acc[MAXL] = { 0 }; struct vnet_noanswer na[MAXL]; bool have_na[MAXL] = { 0 };
+    struct xcm_socket *srv[MAXL] = { 0 }; struct xcm_socket *acc[MAXL] = { 0 }; struct vnet_noanswer na[MAXL]; bool have_na[MAXL] = { 0 }; int guard[MAXL]; for (int i = 0; i < MAXL; i++) guard[i] = -1;
     struct xcm_attr_map *sm = xcm_attr_map_create(); xcm_attr_map_add_bool(sm, "xcm.blocking", false);
     if (vtp_is_bytestream(c.tp)) xcm_attr_map_add_str(sm, "xcm.service", "bytestream");
     bool setup_ok = true;
@@ -192,6 +192,8 @@ static void one_case(long idx, void *arg)
             SCX("xcm_server_a", 100 + i, NULL); srv[i] = xcm_server_a(a, sm); vs_leave();
             if (!srv[i]) setup_ok = false;
         } else if (c.c[i].beh == B_NOANSWER) { if (vnet_noanswer_open(&na[i], lips[i], port) == 0) have_na[i] = true; else setup_ok = false; }
+        /* "refuses" must stay true for the whole case, whatever other workers (which share the loopback addresses) and the kernel's choice of source ports do */
+        else if (c.c[i].beh == B_REFUSE) { guard[i] = vnet_guard(lips[i], port); if (guard[i] < 0) { setup_ok = false; vobs("refusing_address_taken_by_someone_else", 1); } }
     }
     xcm_attr_map_destroy(sm);
     case_json(&c, idx, ss);
@@ -243,9 +245,9 @@ static void one_case(long idx, void *arg)
     double t_out = 0;
     /* the upper time bounds are judged on the time the driving loop was actually turning: a gap of more than 20 ms between two turns is this
      * process not being scheduled (loaded machine), not the library taking its time, and counts as 20 ms */
-    double t_eff = late_look, t_prev = vnow();
+    double t_eff = late_look, t_prev = vnow(), max_gap = 0;
     for (int i = 0; cl && !up && !outcome_errno && i < 40000; i++) {
-        { double tn = vnow(), dt = tn - t_prev; t_eff += dt > 0.02 ? 0.02 : dt; t_prev = tn; }
+        { double tn = vnow(), dt = tn - t_prev; t_eff += dt > 0.02 ? 0.02 : dt; t_prev = tn; if (dt > max_gap) max_gap = dt; }
         for (int j = 0; j < c.n; j++) {
             if (srv[j] && !acc[j]) { SCX("xcm_accept", 200 + j, NULL); acc[j] = xcm_accept(srv[j]); vs_leave(); }
             if (acc[j]) { SCX("xcm_finish", 200 + j, NULL); xcm_finish(acc[j]); vs_leave(); }
@@ -261,6 +263,11 @@ static void one_case(long idx, void *arg)
     t_out = vnow() - t0;
     if (t_out - t_eff > 0.25) vobs("cases_with_scheduling_stalls_discounted", 1);
     t_out = t_eff;
+    /* A turn of the loop takes a millisecond or two.  One that took half of the shortest timer in play (tcp.connect_timeout >= 0.12 s) means this
+     * process was not scheduled for that long: a timer of the library may have run out before the library got the chance to notice the answer that was
+     * already there, and it is entitled to act on the timer.  What the case would show then is the machine's load: not judged, counted. */
+    { double tn = vnow(); if (tn - t_prev > max_gap) max_gap = tn - t_prev; }
+    if (max_gap > 0.06) { vobs("cases_not_judged_scheduling_stall", 1); vsig_str("stalled"); goto out; }
     vobs("connect_scenarios", 1); if (c.shaped) vobs("directed_two_family_shapes", 1);
 
     /* ---- judge ---- */
@@ -354,7 +361,7 @@ static void one_case(long idx, void *arg)
 out:
     if (busy_fd >= 0) close(busy_fd);
     if (cl) { SCX("xcm_close", 0, &plan); xcm_close(cl); vs_leave(); }
-    for (int i = 0; i < c.n; i++) { if (acc[i]) xcm_close(acc[i]); if (srv[i]) xcm_close(srv[i]); if (have_na[i]) vnet_noanswer_close(&na[i]); }
+    for (int i = 0; i < c.n; i++) { if (acc[i]) xcm_close(acc[i]); if (srv[i]) xcm_close(srv[i]); if (have_na[i]) vnet_noanswer_close(&na[i]); if (guard[i] >= 0) close(guard[i]); }
     vdns_enable(false);
     char cls[100]; snprintf(cls, sizeof cls, "%s/%s", pr, alg_name[c.alg]); vclass(cls);
     if (idx < 2) vsample(ctx);
